@@ -193,6 +193,15 @@ void run_C10(vh::Ctx& c) {
         c.desc(hist);
         if (!views_ok(c, *p, hist, "move construction")) return;
       } else if (kind == 8) {
+        if (r.coin(0.15)) {
+          // ---- move assignment onto itself: nothing may change
+          squids::SQuIDS& self = *p;   // the library's operator only: the harness' own members are not self-move safe (std::vector)
+          self = std::move(static_cast<squids::SQuIDS&>(*p));
+          hist += " move-assign(onto itself)"; c.count("op.move_assign_self");
+          c.desc(hist);
+          if (!views_ok(c, *p, hist, "self move assignment")) return;
+          goto after_op;
+        }
         // ---- move assignment onto an empty or a used object
         std::unique_ptr<Problem> q;
         bool used = r.coin();
@@ -221,6 +230,7 @@ void run_C10(vh::Ctx& c) {
         if (p->NX() != m.P.nx || p->D() != m.P.d || p->NR() != m.P.nr || p->NS() != m.P.ns) c.violation("C10:reinit:sizes", hist);
         if (!views_ok(c, *p, hist, "ini")) return;
       }
+    after_op:
       // after every operation the clock and the stored state are what the model says (no operation but Evolve moves them)
       if (kind > 3) {
         c.desc(hist);
